@@ -354,3 +354,94 @@ package rosmar
 //@   ensures [C11,C16:stopFeeds.keeps-map]   !isnull(c.bucket.collectionFeeds)
 //@   ensures [C11,C16:stopFeeds.only-own]    count("mapdelete") == 1 && count("mapupdate") == 0
 //@   ensures [C20:stopFeeds.nopanic-locks]   any: count("lock") == count("unlock")
+
+// ---------------------------------------------------------------------------------------------------------------
+// bucket.go / bucket_registry.go / bucket_api.go: handle lifecycle
+// RegInv: bucketCount[n] = number of open handles on n; buckets[n] registered while handles are open (or in-memory).
+
+//@ fn (*Bucket).copy
+//@   ensures [C03,C13:copy.shares-store] result.sqliteDB == b.sqliteDB && result.mutex == b.mutex && result.expManager == b.expManager && result.collectionFeeds == b.collectionFeeds
+//@   ensures [C13:copy.own-flag]         !result.closed && result != b
+//@   ensures [C13:copy.identity]         result.url == b.url && result.name == b.name && result.inMemory == b.inMemory
+//@   ensures [C11,C13:copy.fresh-collections] !isnull(result.collections) && result.collections != b.collections
+//@
+//@ fn (*Bucket)._db
+//@   ensures [C13,C20:_db.closed-guard] bucket.closed ==> isclosedDB(result)
+//@   ensures [C13:_db.open]             !bucket.closed ==> result == bucket.sqliteDB
+//@
+//@ fn (*Bucket).db
+//@   ensures [C13,C20:db.closed-guard] bucket.closed ==> isclosedDB(result)
+//@   ensures [C13:db.open]             !bucket.closed ==> result == bucket.sqliteDB
+//@   ensures [C20:db.unlocked]         any: nolocks()
+//@
+//@ fn scan
+//@   nullable row
+//@   ensures [C13,C20:scan.nil-row] row == nil ==> isclosed(result)
+//@
+//@ fn (*bucketRegistry).getCachedBucket
+//@   let had = old(haskey(r.buckets, name))
+//@   let n0 = old(r.bucketCount[name])
+//@   requires n0 < 4611686018427387904
+//@   ensures [C13:cached.absent]      !had ==> result0 == nil && result1 == nil && r.bucketCount[name] == n0
+//@   ensures [C13:cached.createnew]   had && mode == 1 ==> result0 == nil && result1 != nil && issentinel(result1, "io/fs.ErrExist") && r.bucketCount[name] == n0
+//@   ensures [C13:cached.otherurl]    had && mode != 1 && url != old(r.buckets[name].url) ==> result0 == nil && result1 != nil && r.bucketCount[name] == n0
+//@   ensures [C13:cached.shared]      had && mode != 1 && url == old(r.buckets[name].url) ==> result1 == nil && result0 != nil && r.bucketCount[name] == n0 + 1 && result0.sqliteDB == old(r.buckets[name].sqliteDB) && result0.mutex == old(r.buckets[name].mutex) && !result0.closed
+//@   ensures [C13,C20:cached.unlocked] any: nolocks()
+//@
+//@ fn (*bucketRegistry).registerBucket
+//@   let n0 = old(r.bucketCount[bucket.name])
+//@   requires n0 < 4611686018427387904
+//@   ensures [C13:register.count]   r.bucketCount[bucket.name] == n0 + 1
+//@   ensures [C13:register.first]   !old(haskey(r.buckets, bucket.name)) ==> !result0 && result1.sqliteDB == bucket.sqliteDB && result1.mutex == bucket.mutex
+//@   ensures [C13:register.second]  old(haskey(r.buckets, bucket.name)) ==> result0 && result1.sqliteDB == old(r.buckets[bucket.name].sqliteDB)
+//@   ensures [C13:register.copy]    result1 != bucket && !result1.closed
+//@   ensures [C13,C20:register.unlocked] any: nolocks()
+//@
+//@ fn (*Bucket)._closeSqliteDB
+//@   modular
+//@   loop 1 invariant [C16:closeDB.collections-loop] true
+//@   loop 1 body [C16:closeDB.closes-each-collection] iter("call:Collection.close") == 1
+//@   loop 2 invariant [C16:closeDB.feeds-loop] true
+//@   loop 2 body [C16:closeDB.removes-entry] iter("mapdelete") == 1
+//@   loop 3 invariant [C16:closeDB.feed-loop] true
+//@   loop 3 body [C16:closeDB.closes-each-feed] iter("call:queue.close") == 1
+//@   ensures [C14,C20:closeDB.stops-timer]   !isnull(bucket.expManager.timer) ==> count("timer.stop") == 1
+//@   ensures [C16,C20:closeDB.closes-db]     count("dbclose") == 1
+//@   ensures [C20:closeDB.order]             tracepos("timer.stop") < tracepos("dbclose") || isnull(bucket.expManager.timer)
+//@
+//@ fn (*Collection).close
+//@   modular
+//@   ensures [C16:Collection.close.stops] count("mapdelete") == 1
+//@   ensures [C20:Collection.close.unlocked] any: nolocks()
+//@
+//@ fn (*bucketRegistry).unregisterBucket
+//@   let n = old(r.bucketCount[bucket.name])
+//@   requires n >= 1 && n < 4611686018427387904
+//@   ensures [C13:unregister.more]      n > 1 ==> r.bucketCount[bucket.name] == n - 1 && count("call:Bucket._closeSqliteDB") == 0 && haskey(r.buckets, bucket.name) == old(haskey(r.buckets, bucket.name))
+//@   ensures [C13:unregister.last-disk] n == 1 && !bucket.inMemory ==> !haskey(r.bucketCount, bucket.name) && count("call:Bucket._closeSqliteDB") == 1 && !haskey(r.buckets, bucket.name)
+//@   ensures [C13:unregister.last-mem]  n == 1 && bucket.inMemory ==> !haskey(r.bucketCount, bucket.name) && count("call:Bucket._closeSqliteDB") == 0 && haskey(r.buckets, bucket.name) == old(haskey(r.buckets, bucket.name))
+//@   ensures [C13,C20:unregister.unlocked] any: nolocks()
+//@
+//@ fn unregisterBucket
+//@   modular
+//@   ensures [C20:unregisterBucket.unlocked] any: nolocks()
+//@
+//@ fn (*Bucket).Close
+//@   ensures [C13:Close.idempotent]   old(bucket.closed) ==> count("call:unregisterBucket") == 0
+//@   ensures [C13:Close.unregisters]  !old(bucket.closed) ==> count("call:unregisterBucket") == 1 && callarg("unregisterBucket", 0) == bucket
+//@   ensures [C13:Close.flag]         bucket.closed
+//@   ensures [C20:Close.unlocked]     any: nolocks()
+//@
+//@ fn (*bucketRegistry).deleteBucket
+//@   ensures [C13:deleteBucket.removed] !haskey(r.buckets, bucket.name) && !haskey(r.bucketCount, bucket.name)
+//@   ensures [C13,C20:deleteBucket.unlocked] any: nolocks()
+//@
+//@ fn deleteBucket
+//@   modular
+//@
+//@ fn (*Bucket).CloseAndDelete
+//@   ensures [C13,C16,C20:CloseAndDelete.shuts-store] count("call:Bucket._closeSqliteDB") == 1 && count("call:deleteBucket") == 1 && callpos("Bucket._closeSqliteDB") < callpos("deleteBucket")
+//@   ensures [C20:CloseAndDelete.unlocked] any: nolocks()
+//@
+//@ fn DeleteBucketAt
+//@   modular
